@@ -1,6 +1,8 @@
-from .checks import deps, pipeline, version, selfhost, container
+from .checks import deps, pipeline, version, selfhost, container, compilecheck
 
 CHECKS = {
+    "C01": lambda tier: compilecheck.run("C01", tier),
+    "C17": lambda tier: compilecheck.run("C17", tier),
     "C02": lambda tier: container.run_c02(tier),
     "C04": lambda tier: container.run_c04(tier),
     "C05": lambda tier: deps.run_property("C05", tier),
